@@ -1,6 +1,7 @@
 From Coq Require Import List Arith.
 Import ListNotations.
-From UJ Require Import Engine.Engine Engine.EngineErr Engine.EngineComplete.
+From Coq Require Import ZArith.
+From UJ Require Import Engine.Engine Engine.EngineErr Engine.EngineComplete Engine.Retry Engine.RetryProofs.
 
 Theorem C10_inflight_le_workers :
   forall (c : cfg) (s : st), cfg_ok c -> reachable c s -> inflight s <= workers c.
@@ -41,3 +42,34 @@ Theorem C10_none_runs_all :
   (In (EStart n) (hist s) <-> forall m, reach (g c) m n -> fails c m = false).
 Proof. exact none_runs_all. Qed.
 Print Assumptions C10_none_runs_all.
+
+(** retry = n (Engine/Retry.v models create_retry): at most n attempts; stop at the first success; an eventual
+    success is a success; after exhaustion the reported exception is the last attempt's. *)
+Theorem C10_retry_attempts_le :
+  forall (attempts : Z) (f : nat -> outcome), (Z.of_nat (snd (retry_call attempts f)) <= Z.max attempts 0)%Z.
+Proof. exact retry_attempts_le. Qed.
+Print Assumptions C10_retry_attempts_le.
+
+Theorem C10_retry_stops_at_first_success :
+  forall (attempts : Z) (f : nat -> outcome) (j : nat) (v : Z),
+  (Z.of_nat j < attempts)%Z ->
+  (forall k, (k < j)%nat -> exists e, f k = ExcRetryable e) -> f j = OOk v ->
+  retry_call attempts f = (ROk v, S j).
+Proof. exact retry_stops_at_first_success. Qed.
+Print Assumptions C10_retry_stops_at_first_success.
+
+Theorem C10_retry_success_is_success :
+  forall (attempts : Z) (f : nat -> outcome) (v : Z) (a : nat),
+  retry_call attempts f = (ROk v, a) <->
+  ((0 < a)%nat /\ (Z.of_nat a <= attempts)%Z /\ f (a - 1)%nat = OOk v /\
+   forall k, (k < a - 1)%nat -> exists e, f k = ExcRetryable e).
+Proof. exact retry_success_is_success. Qed.
+Print Assumptions C10_retry_success_is_success.
+
+Theorem C10_retry_reports_last :
+  forall (attempts : Z) (f : nat -> outcome) (exc : nat -> nat),
+  (1 <= attempts)%Z ->
+  (forall k, (Z.of_nat k < attempts)%Z -> f k = ExcRetryable (exc k)) ->
+  retry_call attempts f = (RRaise (exc (Z.to_nat attempts - 1)%nat), Z.to_nat attempts).
+Proof. exact retry_reports_last. Qed.
+Print Assumptions C10_retry_reports_last.
